@@ -612,3 +612,90 @@ def c20_chain_search(rp, seed):
         if bad:
             return r2, msg
     return None
+
+
+# ---------------------------------------------------------------- C13 argument grammar
+def concrete_obj(info, own_model):
+    """A concrete value for an AnyObj: info = {'tag': name, 'truthy': bool}"""
+    tag, truthy = info.get("tag", "other-object"), info.get("truthy", True)
+    if tag == "None":
+        return None
+    if tag == "bool":
+        return bool(truthy)
+    if tag == "int":
+        return 7 if truthy else 0
+    if tag == "float":
+        return 2.5 if truthy else 0.0
+    if tag == "str":
+        return "abc" if truthy else ""
+    if tag == "tuple":
+        return (1, 2) if truthy else ()
+    if tag == "dict":
+        return {1: 2} if truthy else {}
+    if tag == "list":
+        return [1, 2] if truthy else []
+    if tag == "own-rating":
+        return rating_cls(own_model)(25.0, 8.0)
+    if tag == "foreign-rating":
+        return rating_cls([m for m in MODELS if m != own_model][0])(25.0, 8.0)
+    return object()
+
+
+def build_arg(desc, own_model, objs, nums, game):
+    t = desc["t"]
+    if t == "none":
+        return None
+    if t == "obj":
+        return concrete_obj(objs.get(desc["name"], {}), own_model)
+    if t == "num":
+        return num(nums.get(desc["name"], 1))
+    if t == "own":
+        p = game.get(f"{desc['i']}_{desc['j']}", [25.0, 8.0])
+        return rating_cls(own_model)(num(p[0]), num(p[1]), name=f"p{desc['i']}_{desc['j']}")
+    return [build_arg(d, own_model, objs, nums, game) for d in desc["items"]]
+
+
+def _collect_ratings(x, out, own):
+    if isinstance(x, list):
+        for y in x:
+            _collect_ratings(y, out, own)
+    elif isinstance(x, own):
+        out.append(x)
+
+
+@checker("c13_call")
+def c13_call(rp):
+    """Call op with the described arguments; compare with the expected verdict
+    ('TypeError'/'ValueError'/None=accept; 'reject' = either class) and check
+    that a rejected call modified nothing."""
+    name = rp["model"]
+    m = mk_model(name, rp.get("params") or dict(mu=enc(25.0), sigma=enc(25 / 3), beta=enc(25 / 6), kappa=enc(1e-4), tau=enc(25 / 300)))
+    args = [build_arg(rp["teams"], name, rp["objs"], rp["nums"], rp["game"])]
+    kw = {}
+    if rp["op"] == "rate":
+        kw["ranks"] = build_arg(rp["ranks"], name, rp["objs"], rp["nums"], rp["game"])
+        kw["scores"] = build_arg(rp["scores"], name, rp["objs"], rp["nums"], rp["game"])
+    rs = []
+    _collect_ratings(args[0], rs, rating_cls(name))
+    before = [(id(r), dict(r.__dict__)) for r in rs]
+    mstate = _state(m)
+    exp = rp["expected"]
+    try:
+        getattr(m, rp["op"])(*args, **kw)
+        got = None
+    except (TypeError, ValueError) as e:
+        got = type(e).__name__
+    except Exception as e:  # noqa: BLE001
+        return True, f"{name}.{rp['op']} raised {type(e).__name__}: {e} (neither TypeError nor ValueError)"
+    desc = f"{name}.{rp['op']}({str(args[0])[:60]}, {str(kw)[:80]})"
+    if rp.get("clause") == "canary":
+        return (got is not None) == (exp is not None), f"{desc} -> {got}"
+    if (got is None) != (exp is None):
+        return True, f"{desc} -> {got or 'accepted'}, expected {exp or 'accepted'}"
+    if rp.get("exact_class") and got != exp:
+        return True, f"{desc} -> {got}, expected {exp}"
+    if got is not None or rp["op"] != "rate":
+        after = [(id(r), dict(r.__dict__)) for r in rs]
+        if after != before or _state(m) != mstate:
+            return True, f"{desc} -> {got or 'returned'} but a rating or the model was modified"
+    return False, f"{desc} -> {got or 'accepted'} as expected"
